@@ -132,6 +132,11 @@ pub fn prayer_times_dt_rng_block(
     date_range: &DateRange,
     min_days_for_pll: usize,
 ) -> BTreeMap<NaiveDate, BTreeMap<Prayer, Result<PrayerTime, ()>>> {
+    // Verification hook: with `--cfg ipt_verif_rt` the threading and channel primitives used below
+    // resolve to the verification runtime shim (controlled scheduler / parallelism override).
+    #[cfg(ipt_verif_rt)]
+    use ipt_verif_rt::{channel, thread};
+
     // Determine parallelism.
     let avail_pll = if let Ok(count) = thread::available_parallelism() {
         count.get()
